@@ -1469,6 +1469,7 @@ fn order_of(label: u64) -> u64 {
         1 => 0,
         11 => 1,
         12 => 2,
+        13 => 3,
         _ => 99,
     }
 }
@@ -1476,7 +1477,11 @@ fn order_of(label: u64) -> u64 {
 /// W{store #11; flag.store(Release); store #12} || C{cache.load; if flag.load(Acquire) {cache.load
 /// must be #11 or newer, whatever the second store does meanwhile}; cache.load}: per-cache monotone in write order, never a foreign identity, and a
 /// store whose completion happens-before the call is seen.
-pub fn cache_conc<S: Strat>(fill: bool) {
+///
+/// `aba`: W{store #11; store #12; store #13; flag.store(Release)} || C{load; load; if flag {load
+/// must be #13}; load}. With reused addresses #13 lives where #11 lived: a cache that remembers an
+/// address it holds no reference to takes #13 for what it has.
+pub fn cache_conc<S: Strat>(fill: bool, aba: bool) {
     use arc_swap::cache::Cache;
     use rt::atomic::AtomicUsize;
     use std::sync::atomic::Ordering::{Acquire, Release};
@@ -1489,8 +1494,14 @@ pub fn cache_conc<S: Strat>(fill: bool) {
             let h = prologue(&fil, false);
             rt::quiet(|| rt::barrier(2));
             store(&c, V::new(11));
-            flag.store(1, Release);
-            store(&c, V::new(12));
+            if aba {
+                store(&c, V::new(12));
+                store(&c, V::new(13));
+                flag.store(1, Release);
+            } else {
+                flag.store(1, Release);
+                store(&c, V::new(12));
+            }
             release(h);
         })
     };
@@ -1498,6 +1509,7 @@ pub fn cache_conc<S: Strat>(fill: bool) {
         let (c, fil, flag) = (c.clone(), fil.clone(), flag.clone());
         rt::spawn(move || {
             let h = prologue(&fil, fill);
+            let newest = if aba { 3 } else { 1 };
             let mut cache = rt::quiet(|| Cache::new(&c.sw));
             rt::quiet(|| rt::barrier(2));
             let mut last = 0u64;
@@ -1515,17 +1527,20 @@ pub fn cache_conc<S: Strat>(fill: bool) {
                     rt::violation("C16", "cache", format!("Cache::load returned value #{} which was never stored in the container", l));
                 } else if o < last {
                     rt::violation("C16", "cache", format!("Cache::load went backwards in the order of writes: returned #{} after a newer value", l));
-                } else if must_be_newest && o < 1 {
+                } else if must_be_newest && o < newest {
                     rt::violation(
                         "C16",
                         "cache",
-                        format!("Cache::load returned #{} although the completion of store(#11) happens-before the call (release/acquire flag)", l),
+                        format!("Cache::load returned #{} although the completion of a later store happens-before the call (release/acquire flag)", l),
                     );
                 }
                 last = o;
                 world::observe(l);
             };
             do_load(false);
+            if aba {
+                do_load(false);
+            }
             if flag.load(Acquire) == 1 {
                 do_load(true);
             }
